@@ -103,3 +103,10 @@ VARIANTS += [
       "        instance.bin_height, instance.bin_width, objective_values,\n",
       "fire", "D12.6"),
 ]
+
+VARIANTS += [
+    V("model-runs-get-training-budget",
+      "moptipyapps/dynamic_control/experiment_surrogate.py",
+      "            fes_per_model_run=fes_per_model_run,",
+      "            fes_per_model_run=fes_for_training,", "fire", "D12.2"),
+]
